@@ -30,6 +30,8 @@ use crate::{
 
 pub use crate::c05_roundtrip::DIRECTED_BASE;
 
+mod worker;
+
 fn addr_key(a: &SocketAddress) -> String {
     SocketAddr::from(*a).to_string()
 }
@@ -375,8 +377,14 @@ pub fn run(ctx: &Ctx) -> Report {
     let fx = fixtures();
     rep.set("pem_but_not_x509_variants_available", json!(fx.not_x509.len()));
     let gag = StdoutGag::new();
+    worker::requirements(&mut rep);
     if let Some((rctx, cases)) = replay_cases(ctx) {
         for c in cases {
+            if c >= worker::WORKER_BASE && c < DIRECTED_BASE {
+                drop(StdoutGag::new());
+                worker::replay_case(&rctx, c, &mut rep);
+                continue;
+            }
             if let Err(p) = guard(|| run_case(&rctx, c, &mut rep)) {
                 rep.broken(&format!("panic while replaying case {c}: {} at {}", p.message, p.location));
             }
@@ -384,6 +392,8 @@ pub fn run(ctx: &Ctx) -> Report {
         drop(gag);
         return rep;
     }
+    // part (b): live worker, about a third of the budget; then part (a) with what is left
+    worker::run_part(ctx, &mut rep, ctx.tier.pick(0.34, 0.4));
     for k in 0..DIRECTED {
         if let Err(p) = guard(|| run_case(ctx, DIRECTED_BASE + k, &mut rep)) {
             if p.in_sozu() {
